@@ -1,5 +1,5 @@
 (* C14 -- v2 header views partition the header consistently.  Statement only; proof in Proofs/V2Views.v. *)
-From PPP Require Import Base.Bytes Model.V2 Spec.V2Wire Proofs.BytesFacts Proofs.V2Views.
+From PPP Require Import Base.Bytes Model.V2 Spec.V2Wire Proofs.BytesFacts Proofs.V2Views Proofs.Extra.
 
 Theorem C14 : forall x h, wf_bytes x = true -> p2 x = Ok h ->
   (* address bytes followed by TLV bytes are exactly the payload after the 16-byte fixed part *)
@@ -22,6 +22,11 @@ Theorem C14 : forall x h, wf_bytes x = true -> p2 x = Ok h ->
   /\ h_to_owned h = h.
 Proof. exact views_partition. Qed.
 
+(* the two views are the partition Spec/V2Wire.v prescribes (what the correspondence oracle compares with) *)
+Theorem C14_spec : forall x h, wf_bytes x = true -> p2 x = Ok h ->
+  h_address_bytes h = spec_address_bytes h /\ h_tlv_bytes h = spec_tlv_section h.
+Proof. exact views_match_spec. Qed.
+
 (* non-vacuity: an IPv6 header with a 5-byte TLV section is accepted *)
 Example C14_example :
   let x := SIG ++ [33; 33; 0; 41] ++ repeatN 7 36 ++ [4; 0; 2; 9; 9] in
@@ -29,3 +34,4 @@ Example C14_example :
 Proof. vm_compute. split; reflexivity. Qed.
 
 Print Assumptions C14.
+Print Assumptions C14_spec.
